@@ -76,7 +76,7 @@ class ThreadWorld(World):
     SIM_TIME_UNIT = "scheduler steps (task completions)"
     SYSTEMATIC_GATES_SEARCH = True
     WARMUP_IN_CHILD = True
-    RUNS = {"quick": 16000, "thorough": 400000}
+    RUNS = {"quick": 16000, "thorough": 3000000}
     WALL_CAP = {"quick": 600, "thorough": 3000}
     RULE = (
         "one run = seeded knobs + up to max_steps calls of threaded routines "
